@@ -116,7 +116,8 @@ def start_partition(draw, n):
     ci = draw(gen.partition(n))
     k = int(ci.max())
     m = draw(gen.relabelling(k))
-    return np.array([m[l - 1] for l in ci], dtype=int)
+    out = np.array([m[l - 1] for l in ci])
+    return out if out.dtype.kind == "f" else out.astype(int)
 
 
 @st.composite
@@ -166,7 +167,7 @@ def call(case, ctx, ci0="case"):
     g = case["gamma"]
     seed = case["seed"]
     start = case.get("ci0") if isinstance(ci0, str) else ci0
-    start = None if start is None else np.array(start, dtype=int)
+    start = None if start is None else np.array(start)
     with MoveRecorder() as rec:
         if name == "community_louvain":
             o = ctx.call(fn, W.copy(), gamma=g, ci=(None if start is None else start.copy()), B=case["objective"], seed=seed)
